@@ -200,9 +200,22 @@ def check(run):
         abuf = r2.integers(-50, 50, N * step_a + 3).astype(np.int64)
         obuf = np.full(n_out * step_o + 3, 777, dtype=np.int64)
         arr, out = abuf[: N * step_a : step_a], obuf[: n_out * step_o : step_o]
+        kind = t % 4  # other ways a count column arrives as a view: reversed, a column of a 2-D array, a field of a record array
+        if kind == 1:
+            arr = arr[::-1]
+        elif kind == 2:
+            arr = np.ascontiguousarray(np.stack([arr, arr + 1], axis=1))[:, 0]
+        elif kind == 3:
+            rec = np.zeros(N, dtype=[('pad', 'i2'), ('n', 'i8')])
+            rec['n'] = arr
+            arr = rec['n']
         keep = obuf.copy()
         run.ev()
-        tot = _cs(arr, out, initial=initial, final=final, offset=3)
+        try:
+            tot = _cs(arr, out, initial=initial, final=final, offset=3)
+        except Exception as e:
+            run.violation('cumsum-strided-views', dict(N=N, initial=initial, final=final, view_kind=['step', 'reversed', '2-D column', 'record field'][kind], problem=f'raises {type(e).__name__}: {e}'[:200]))
+            continue
         sel, total = ref_selected([int(x) for x in arr], 3, initial, final)
         mask = np.ones(len(obuf), bool)
         mask[: n_out * step_o : step_o] = False
